@@ -5,7 +5,9 @@
 //! printed as `KNOWN-FINDING:` lines); 1 violation (a line
 //! `VIOLATION property=<id> replay=<path>` is printed); 2 harness error.
 
+mod alloc;
 mod c19;
+mod c20;
 mod disk;
 mod driver;
 mod rng;
@@ -18,7 +20,10 @@ use std::sync::Arc;
 
 use serde_json::{json, Value};
 
-use driver::{BatchResult, Prop, Stats, Tier};
+use driver::{BatchResult, Stats, Tier};
+
+#[global_allocator]
+static GLOBAL: alloc::Counting = alloc::Counting;
 
 struct Args {
     cmd: String,
@@ -343,6 +348,163 @@ fn run_c19(args: &Args) -> i32 {
     exit
 }
 
+const C20_RULE: &str = "One evaluation = one simulated run: 1-4 simulated threads, each with an explicit \
+program of up to 24 (quick) / 40 (thorough) operations over 6 slots holding TimeZone, Zoned or \
+AmbiguousZoned values (new/clone/drop/move/eq/query/into_zoned/zoned_add/with_time_zone/extract/\
+to_ambiguous/resolve/send/recv/swap_shared/crash), and a schedule that interleaves the threads at \
+operation granularity; both derived from hash(VERIF_SEED, run index). After every operation the counting \
+allocator is compared with the handle-count model; every query is compared with a reference handle; \
+equality laws are checked. A run is non-trivial if some heap-backed zone (POSIX or TZif from bytes) was \
+shared by at least two live handles at some point. Distinct = distinct fingerprint of the executed \
+(thread, operation) sequence in global order. In addition every batch sweeps all 187,199 fixed offsets once.";
+
+const C20_ASSUMPTIONS: &[&str] = &[
+    "A5: Arc's atomics and the system allocator are correct (the Miri tier goes inside the atomics)",
+    "A6: x86_64 only; the repr(align(8)) argument for 32-bit targets is not exercised",
+    "native tier: scheduling points exist between operations only (jiff's TimeZone code has no internal synchronisation other than Arc's counter); what schedules vary is which thread performs which clone/drop and the last drop",
+    "a zone's footprint is the set of allocations made during its constructor that are still live when it returns",
+    "allocation failure inside Arc::new is not injected (it aborts the process); TimeZone::copy (unsafe, proc-macro internal) is not exercised",
+    "cross-kind equality (e.g. static vs heap TZif of the same zone, POSIX vs TZif) is only required to be symmetric and stable, not to have a particular value",
+];
+
+fn c20_real_stub() -> Value {
+    json!({
+        "real": [
+            "jiff TimeZone / mod repr (tagged pointer, manual Arc counts), Zoned, AmbiguousZoned, TZif and POSIX parsing, jiff-static get! zones",
+            "alloc::sync::Arc", "the system allocator (wrapped by a counting allocator that forwards every call, except a detected double free)",
+            "panic unwinding (crash fault)"
+        ],
+        "stub_or_simulated": [
+            "thread scheduler (shuttle coroutines under the harness's seeded scheduler; real std::thread + Miri's seeded scheduler in the thorough tier)",
+            "channels / shared slot between threads (harness-owned queues; std::sync::mpsc + Mutex in the Miri tier)"
+        ]
+    })
+}
+
+fn run_c20(args: &Args) -> i32 {
+    if let Err(e) = zonegen::self_check() {
+        harness_error(&format!("generator self-check failed: {e}"));
+    }
+    let tier = tier_from(args);
+    let seed = seed_from(args);
+    let workers = opt_u64(args, "workers", 16) as usize;
+    let (def_runs, def_budget) = match tier {
+        Tier::Quick => (400_000, 120.0),
+        Tier::Thorough => (12_000_000, 3000.0),
+    };
+    let runs = opt_u64(args, "runs", def_runs);
+    let budget = args.opts.get("budget").and_then(|s| s.parse().ok()).unwrap_or(def_budget);
+    let evidence_path = PathBuf::from(
+        args.opts.get("evidence").cloned().unwrap_or_else(|| "/verif/evidence/C20.json".into()),
+    );
+    let replay_dir = PathBuf::from(
+        args.opts.get("replays").cloned().unwrap_or_else(|| "/verif/replays".into()),
+    );
+    let known = load_known(Path::new(
+        args.opts.get("known").map(|s| s.as_str()).unwrap_or("/verif/known-findings.txt"),
+    ));
+    let want_fplog = args.opts.contains_key("fplog");
+    println!("C20 tier={tier:?} VERIF_SEED={seed} runs={runs} workers={workers}");
+    let mut violations = 0;
+    let mut exit = 0;
+    let mut extra = json!({});
+
+    // The deterministic sweep over every fixed offset.
+    c20::warm_up();
+    alloc::enable();
+    let sweep_start = std::time::Instant::now();
+    let sweep = c20::fixed_sweep();
+    let sweep_s = sweep_start.elapsed().as_secs_f64();
+    match &sweep {
+        Ok(n) => println!("fixed-offset sweep: {n} offsets ok ({sweep_s:.2}s)"),
+        Err(v) => {
+            let _ = std::fs::create_dir_all(&replay_dir);
+            let path = replay_dir.join(format!("C20-{seed}-fixed-sweep.json"));
+            let _ = std::fs::write(
+                &path,
+                serde_json::to_string_pretty(&json!({
+                    "property": "C20-sweep", "clause": v.clause, "detail": v.detail,
+                    "replay": "deterministic: `jiffsim c20-sweep` re-runs it"
+                }))
+                .unwrap(),
+            );
+            println!("violated clause: {}", v.clause);
+            println!("detail: {}", v.detail);
+            println!("VIOLATION property=C20 replay={}", path.display());
+            violations += 1;
+            exit = 1;
+            extra = json!({"violation": {"clause": v.clause, "detail": v.detail, "replay": path}});
+        }
+    }
+
+    let p = Arc::new(c20::C20);
+    let wargs: Vec<String> = vec!["--prop".into(), "c20".into()];
+    let mut res = driver::run_batch(p.clone(), &wargs, seed, tier, runs, budget, workers, want_fplog);
+    if let Some(e) = &res.harness_error {
+        harness_error(e);
+    }
+    if let Some(path) = args.opts.get("fplog") {
+        let mut log = res.stats.fplog.take().unwrap_or_default();
+        log.sort();
+        let text: String = log.iter().map(|(r, f)| format!("{r} {f:016x}\n")).collect();
+        let _ = std::fs::write(path, text);
+    }
+    if let (Some(found), 0) = (&res.found, exit) {
+        let root = driver::scratch_root();
+        let ctx = driver::WorkerCtx { index: 0, dir: root.join("min") };
+        let _ = std::fs::create_dir_all(&ctx.dir);
+        let (path, clause, detail) = driver::write_replay(&*p, seed, found, &ctx, &replay_dir);
+        let known_hit = known.findings.iter().find(|f| {
+            f.0 == "C20" && f.1 == clause && (f.2.is_empty() || detail.contains(&f.2))
+        });
+        match known_hit {
+            Some(f) => {
+                println!("KNOWN-FINDING: property=C20 clause={} {}", f.1, f.3);
+                extra = json!({"known_finding": {"clause": clause, "detail": detail, "replay": path}});
+            }
+            None => {
+                println!("violated clause: {clause}");
+                println!("detail: {detail}");
+                println!("run index {} (run seed {}), minimised replay written", found.run, found.run_seed);
+                println!("VIOLATION property=C20 replay={}", path.display());
+                violations += 1;
+                exit = 1;
+                extra = json!({"violation": {"clause": clause, "detail": detail, "replay": path}});
+            }
+        }
+    }
+    if let Value::Object(ref mut m) = extra {
+        m.insert(
+            "fixed_offset_sweep".into(),
+            json!({"offsets_checked": sweep.as_ref().ok().copied().unwrap_or(0), "range": [-93599, 93599], "exhaustive": sweep.is_ok(), "wall_s": sweep_s}),
+        );
+    }
+    let ev = evidence(
+        "C20", tier, seed, &res, extra, violations, C20_RULE, C20_ASSUMPTIONS, c20_real_stub(),
+    );
+    write_evidence(&evidence_path, &ev);
+    println!(
+        "C20: {} runs in {:.1}s ({} distinct op interleavings, {} distinct non-trivial), violations={}",
+        res.stats.runs,
+        res.wall_s,
+        res.stats.fingerprints.len(),
+        res.stats.nontrivial_fingerprints.len(),
+        violations
+    );
+    exit
+}
+
+fn run_exec_case(args: &Args) -> i32 {
+    let (Some(input), Some(output)) = (args.opts.get("in"), args.opts.get("out")) else {
+        harness_error("exec-case: --in/--out missing")
+    };
+    match args.opts.get("prop").map(|s| s.as_str()) {
+        Some("c19") => driver::exec_case_child(&c19::C19 { fault_free: None }, Path::new(input), Path::new(output)),
+        Some("c20") => driver::exec_case_child(&c20::C20, Path::new(input), Path::new(output)),
+        other => harness_error(&format!("exec-case: unknown property {other:?}")),
+    }
+}
+
 fn run_worker(args: &Args) -> i32 {
     let tier = tier_from(args);
     let seed = seed_from(args);
@@ -362,6 +524,10 @@ fn run_worker(args: &Args) -> i32 {
                 _ => None,
             };
             let p = c19::C19 { fault_free };
+            driver::worker_loop(&p, seed, tier, runs, budget, workers, index, want_fplog, &out)
+        }
+        Some("c20") => {
+            let p = c20::C20;
             driver::worker_loop(&p, seed, tier, runs, budget, workers, index, want_fplog, &out)
         }
         other => harness_error(&format!("worker: unknown property {other:?}")),
@@ -406,6 +572,13 @@ fn run_replay(args: &Args) -> i32 {
                 Ok((rf, viol, trace)) => report_replay(&rf.property, &rf.clause, path, &viol, &trace, args),
             }
         }
+        "C20" => {
+            let p = c20::C20;
+            match driver::replay(&p, Path::new(path)) {
+                Err(e) => harness_error(&e),
+                Ok((rf, viol, trace)) => report_replay(&rf.property, &rf.clause, path, &viol, &trace, args),
+            }
+        }
         other => harness_error(&format!("unknown property {other:?} in replay file")),
     }
 }
@@ -442,7 +615,13 @@ fn main() {
             driver::cleanup_scratch();
             code
         }
+        "c20" => {
+            let code = run_c20(&args);
+            driver::cleanup_scratch();
+            code
+        }
         "worker" => run_worker(&args),
+        "exec-case" => run_exec_case(&args),
         "replay" => run_replay(&args),
         "selfcheck" => match zonegen::self_check() {
             Ok(()) => {
